@@ -40,9 +40,11 @@ def failing_statement(rng):
     if c < 0.35:
         return "%s(%d)" % (b, d), None
     if c < 0.45:
-        return "for i <- fromto(0, 5) if i == %d %s(%d)" % (rng.randint(0, 4), b, d), None
+        # the loop variable is a global binding completed before the failure: it persists (the property says so),
+        # so it gets a name no other statement of the session reads
+        return "for zzfi <- fromto(0, 5) if zzfi == %d %s(%d)" % (rng.randint(0, 4), b, d), None
     if c < 0.6:
-        return "for v <- %s(%d) v" % (rng.choice(["gz", "gg", "ggg"]), d), None
+        return "for zzfv <- %s(%d) zzfv" % (rng.choice(["gz", "gg", "ggg"]), d), None
     if c < 0.68:
         return "summ(%d) + 100" % d, None
     if c < 0.76:
